@@ -187,7 +187,8 @@ Definition pm_remove (p : payment) (sp amt fee : Z) : payment * bool :=
   | Fulfilled parts h t tot f =>
       if mem sp parts then (Fulfilled (rm sp parts) h t tot f, true) else (p, false)
   | Abandoned parts h r tot f =>
-      if mem sp parts then (Abandoned (rm sp parts) h r tot f, true) else (p, false)
+      (* the fee preserved from Retryable only covers the parts still in flight *)
+      if mem sp parts then (Abandoned (rm sp parts) h r tot (option_map (fun x => sat_sub x fee) f), true) else (p, false)
   | AwaitingInvoice _ _ => (p, false)
   end.
 
